@@ -78,6 +78,29 @@ def invariance_defect(states, P, pi):
     return float(d[j]), j
 
 
+def pg_move_after_alpha_change(proposal, tree_dist, num_particles, resample_threshold, outlier_proposal_prob, alpha_before, warmup_tree):
+    """the sampler stack of a run (one kernel, one distribution object): one update at alpha_before, then the concentration is
+    changed IN PLACE (run.update_concentration_value) and the kernel at the new value must be exactly invariant"""
+    from phyclone.mcmc.particle_gibbs import ParticleGibbsTreeSampler
+    import numpy as np
+
+    alpha_after = tree_dist.prior.alpha
+    kernel = make_kernel(proposal, tree_dist, np.random.default_rng(5), outlier_proposal_prob, "run")
+    sampler = ParticleGibbsTreeSampler(kernel, kernel.rng, num_particles=num_particles, resample_threshold=resample_threshold)
+    tree_dist.prior.alpha = alpha_before
+    clear_caches()
+    sampler.sample_tree(warmup_tree.copy())
+    tree_dist.compute_both_log_p_and_log_p_one(warmup_tree)
+    tree_dist.prior.alpha = alpha_after
+
+    def move(tree, rng):
+        kernel._rng = rng
+        sampler._rng = rng
+        return sampler.sample_tree(tree)
+
+    return move
+
+
 def pg_move(proposal, wiring, tree_dist, num_particles, resample_threshold, outlier_proposal_prob, subtree=False):
     from phyclone.mcmc.particle_gibbs import ParticleGibbsSubtreeSampler, ParticleGibbsTreeSampler
 
@@ -91,10 +114,16 @@ def pg_move(proposal, wiring, tree_dist, num_particles, resample_threshold, outl
 
 
 def dp_move(tree_dist, outliers):
+    """one long-lived sampler object for every start tree and every path (as in a run): state kept across calls is exercised"""
     from phyclone.mcmc.gibbs_mh import DataPointSampler
 
+    sampler = DataPointSampler(tree_dist, None, outliers=outliers)
+
     def move(tree, rng):
-        return DataPointSampler(tree_dist, rng, outliers=outliers).sample_tree(tree)
+        sampler._rng = rng
+        t = tree.copy()
+        t.relabel_nodes()  # trees reach the move relabelled, exactly as in the run loop
+        return sampler.sample_tree(t)
 
     return move
 
@@ -102,8 +131,11 @@ def dp_move(tree_dist, outliers):
 def prg_move(tree_dist):
     from phyclone.mcmc.gibbs_mh import PruneRegraphSampler
 
+    sampler = PruneRegraphSampler(tree_dist, None)
+
     def move(tree, rng):
-        return PruneRegraphSampler(tree_dist, rng).sample_tree(tree)
+        sampler._rng = rng
+        return sampler.sample_tree(tree)
 
     return move
 
